@@ -1068,6 +1068,36 @@ func (c *c16ctx) jsonSlices(maxLen int) {
 			}
 			return out, err
 		})
+		// the destination is reused: it already holds documents of an earlier reply and has room for this one
+		c.expect("DecodeSliceOfJSON (reused destination)", "array of JSON strings", cls, c16arr(kids...), want, want, false, func(r RedisResult) (any, error) {
+			out := make([]c16jdoc, 0, 8)
+			for i := 0; i < 5; i++ {
+				out = append(out, c16jdoc{A: 90 + i, S: "stale"})
+			}
+			err := DecodeSliceOfJSON(r, &out)
+			if out == nil {
+				out = []c16jdoc{}
+			}
+			return out, err
+		})
+		wantP := make([]*c16jdoc, len(idx))
+		for k, i := range idx {
+			if !elems[i].nul {
+				d := elems[i].doc
+				wantP[k] = &d
+			}
+		}
+		c.expect("DecodeSliceOfJSON (reused destination of pointers)", "array of JSON strings", cls, c16arr(kids...), wantP, wantP, false, func(r RedisResult) (any, error) {
+			out := make([]*c16jdoc, 0, 8)
+			for i := 0; i < 5; i++ {
+				out = append(out, &c16jdoc{A: 90 + i, S: "stale"})
+			}
+			err := DecodeSliceOfJSON(r, &out)
+			if out == nil {
+				out = []*c16jdoc{}
+			}
+			return out, err
+		})
 	})
 	// a broken document must surface as an error
 	c.expect("DecodeSliceOfJSON", "array of JSON strings", "malformed element", c16arr(c16str(`{"a":1}`), c16str(`{`)), "malformed", nil, true, func(r RedisResult) (any, error) {
